@@ -305,6 +305,38 @@ Proof.
 Qed.
 Print Assumptions C06_stream_v1_unmapped_wrong_exception_refuted.
 
+(* ---------------------------------------------------------------- (3e) the whole connect *)
+
+(* pyatv.connect() over any number of queued protocols: it returns a device iff every protocol's
+   connect returned; if the verification of ANY protocol - at any position in the set-up order -
+   is refused (no transport fault), connect() raises, and when the protocols before it connected
+   it raises exactly AuthenticationError; that protocol has no keys. *)
+Theorem C06_connect_fails_if_any_verification_fails :
+  forall x25519 hkdf dec enc pk_load sig_ok sign pre post k p h c pd pd4,
+  let r := connect x25519 hkdf dec enc pk_load sig_ok sign k p h c None pd None pd4 in
+  (facade_connect (pre ++ r :: post) = None <-> Forall (fun x => raised x = None) (pre ++ r :: post)) /\
+  ((forall reply, verify_credentials x25519 hkdf dec enc pk_load sig_ok sign k p h c None pd None pd4 <> Accept reply) ->
+   keys r = false /\
+   facade_connect (pre ++ r :: post) <> None /\
+   (Forall (fun x => raised x = None) pre -> facade_connect (pre ++ r :: post) = Some EAuthentication)).
+Proof.
+  intros. split; [apply facade_none|]. intro H.
+  destruct (C06_any_other_reply_is_authentication_error _ _ _ _ _ _ _ _ _ _ _ _ _ H) as [R K]. fold r in R, K.
+  split; [exact K|]. split.
+  - intro N. apply facade_none in N. apply Forall_app in N as [_ N]. inversion N as [|? ? N1 _]; subst. congruence.
+  - intro Hp. now apply facade_first.
+Qed.
+Print Assumptions C06_connect_fails_if_any_verification_fails.
+
+(* The RAOP service embedded in an AirPlay 2 service verifies with the AirPlay service's stored
+   credentials: stored HAP credentials there => HAP Pair-Verify for them, whatever is announced. *)
+Theorem C06_embedded_raop_uses_airplay_credentials :
+  forall c a, auth_type c = Some KHAP ->
+  extract_credentials (embedded_raop_credentials (Some c)) a = SelCreds c /\
+  selected_procedure (embedded_raop_credentials (Some c)) a = Some PHap.
+Proof. intros c a K. exact (C06_stored_credentials_select_procedure c KHAP K a). Qed.
+Print Assumptions C06_embedded_raop_uses_airplay_credentials.
+
 (* Exception mapping, every class: MRP and Companion (error_handler) give AuthenticationError
    except OSError/timeout -> ConnectionFailedError and BackOffError / NoCredentialsError /
    cancellation unchanged; AirPlay (verify_connection) gives AuthenticationError except
